@@ -151,15 +151,10 @@ def plan(tier):
             ([Config('java', s, 'S') for s in sw], [('prng', 1), ('prng', 2)], 1, 8, False),
             ([Config('java', z, 'M'), Config('java', z, 'D')], [('prng', c) for c in range(1, 41)] + ['first', 'alt'], 0, 1, False),
         ]
-    sw = [(a, b, c, d) for a in (0, 1) for b in (0, 1) for c in (0, 1) for d in (0, 1)]
-    pol = ['first', 'last', 'alt'] + [('prng', c) for c in range(1, 9)]
-    return [
-        ([Config('java', s, 'S', o) for s in sw for o in ('asc', 'desc')], pol, 1, 8, False),
-        ([Config('java', z, 'S', 'asc', True)], pol, 1, 8, True),
-        ([Config('java', s, 'M') for s in (z, (1, 1, 1, 1))], [('prng', c) for c in range(1, 5)], 1, 16, False),
-        ([Config('java', z, 'D')], [('prng', 1), ('prng', 2)], 1, 32, False),
-        ([Config('java', s, 'D') for s in sw], pol, 0, 1, False),
-    ]
+    from mc import plans
+    out = [(c, p, b, n, False) for c, p, b, n in plans.thorough(['java'], 'medium')]
+    out.append(([Config('java', z, 'S', 'asc', True)], [('prng', 1), ('prng', 2)], 1, 8, True))
+    return out
 
 
 def run(tier, seed, jobs):
